@@ -306,10 +306,12 @@ func (its *PushPullHandler) pullOperations() errors.OrdaError {
 }
 
 func (its *PushPullHandler) pushOperations() errors.OrdaError {
+	// also for a read-only client: the commit records currentCP.Sseq as the end of the log, and a
+	// read-only pull that finds nothing new otherwise rewinds the log to the reader's own checkpoint
+	its.currentCP.Sseq = its.datatypeDoc.Sseq.End
 	if its.isReadOnly {
 		return nil
 	}
-	its.currentCP.Sseq = its.datatypeDoc.Sseq.End
 	for _, op := range its.gotPushPullPack.Operations {
 		if its.clientDoc.GetType() != model.ClientType_VOLATILE && op.ID.GetCUID() != its.CUID {
 			// sequence numbers are per client: another client's id would corrupt that client's numbering
